@@ -1,5 +1,5 @@
 #!/bin/bash
-# usage: run_batch.sh "C02 C05 ..."   confirm each round-2 seed, then evaluate in sandbox /tmp/mut2
+# usage: run_batch.sh "C02 C05 ..."   confirm each round-3 seed (worktrees /tmp/seed3/Cxx -> seeded/Cxx-3), then evaluate in sandbox /tmp/mut2
 # (sandbox /verif = committed HEAD over a copy of the working tree, so agents' half-done edits are not used)
 cd /verif
 for p in $1; do
